@@ -726,7 +726,13 @@ func NewVideoPackager() (VideoPackager, error) {
 }
 
 func (v *videoPackager) Decode(tag []byte) (frame *VideoFrame, err error) {
-	if len(tag) < 5 {
+	if len(tag) < 1 {
+		err = errDataNotEnough
+		return
+	}
+
+	// Only AVC and HEVC carry the packet type and composition time.
+	if c := VideoCodec(byte(tag[0]) & 0x0f); (c == VideoCodecAVC || c == VideoCodecHEVC) && len(tag) < 5 {
 		err = errDataNotEnough
 		return
 	}
